@@ -94,12 +94,50 @@ Definition delete_err_fold (overwrite : bool) (b : build) (dl : list name) (df :
   fold_left (fun e p => let ep := snd (del_step b df tf p) in
                         if overwrite && is_tomb_step b p then ep else e || ep) dl err0.
 
-Definition finish_ops (b : build) (ro dl : list name) (rf df : name -> bool) (tf : tfault) : list xop :=
-  rename_ops ro rf ++ delete_ops b dl df tf.
-Definition finish_err (b : build) (ro dl : list name) (rf df : name -> bool) (tf : tfault) : bool :=
-  delete_err_fold false b dl df tf (existsb rf ro).
-Definition finish_err_before_fix (b : build) (ro dl : list name) (rf df : name -> bool) (tf : tfault) : bool :=
-  delete_err_fold true b dl df tf (existsb rf ro).
+(** After the rename loop: `if b.buildError != nil { return b.buildError }` — when a rename failed the toDelete loop is
+    skipped altogether (repair `fix: Builder.Finish keeps the old shards when a new shard could not be renamed into
+    place`): the old file of a name whose rename failed is still in toDelete, removing it would leave the repository
+    (partly) unindexed.  [skip = false] is the code before that repair. *)
+Definition finish_ops_gen (skip : bool) (b : build) (ro dl : list name) (rf df : name -> bool) (tf : tfault) : list xop :=
+  rename_ops ro rf ++ (if skip && existsb rf ro then [] else delete_ops b dl df tf).
+Definition finish_err_gen (skip overwrite : bool) (b : build) (ro dl : list name) (rf df : name -> bool) (tf : tfault) : bool :=
+  if skip && existsb rf ro then true else delete_err_fold overwrite b dl df tf (existsb rf ro).
+
+Definition finish_ops : build -> list name -> list name -> (name -> bool) -> (name -> bool) -> tfault -> list xop :=
+  finish_ops_gen true.
+Definition finish_err : build -> list name -> list name -> (name -> bool) -> (name -> bool) -> tfault -> bool :=
+  finish_err_gen true false.
+(** the code before the two repairs (d380a28: guarded assignment after SetTombstone; and the skip above) *)
+Definition finish_ops_before_fix := finish_ops_gen false.
+Definition finish_err_before_fix := finish_err_gen false true.
+(** between the two repairs: guarded assignment, no skip *)
+Definition finish_err_noskip := finish_err_gen false false.
+
+(** ---- orphan sidecars.  A run killed between removing a shard and removing its ".meta" (Finish's toDelete loop in map
+    order, zoekt-merge-index, the indexserver's cleanup) leaves a sidecar WITHOUT shard.  Nothing reads it, but a later
+    build that writes a shard under that name would have it adopted: [fs0o b orph] = the directory before the build with
+    such sidecars at the slots [orph] (only slots >= b_nold: below, shard and sidecar are described by [fs0]).  Finish
+    (repair `fix: Builder.Finish removes a left-over .meta ...`) removes, before the rename loop, the sidecar of every new
+    shard's name at which no shard exists ([is_new_slot]); [po] = the order (map iteration), [pf] = which removals fail
+    (a failure sets buildError: the toDelete loop is skipped like after a failed rename). *)
+Definition fs0o (b : build) (orph : list nat) : fs := fun x =>
+  match x with
+  | Meta (SReg n) => if (b_nold b <=? n) && memn n orph then Some (Data GOld) else fs0 b x
+  | _ => fs0 b x
+  end.
+Definition is_new_slot (b : build) (n : nat) : bool := (b_nold b <=? n) && memname (Shard (SReg n)) (artifacts b).
+Definition orphan_ops (po : list nat) (pf : nat -> bool) : list xop :=
+  map (fun n => (ORemove (Meta (SReg n)), negb (pf n))) po.
+Definition finish_ops_o (b : build) (po : list nat) (pf : nat -> bool) (ro dl : list name) (rf df : name -> bool) (tf : tfault) : list xop :=
+  orphan_ops po pf ++ rename_ops ro rf ++ (if existsb pf po || existsb rf ro then [] else delete_ops b dl df tf).
+(** the part after the orphan removal; [e0] = a removal failed *)
+Definition finish_tail (b : build) (e0 : bool) (ro dl : list name) (rf df : name -> bool) (tf : tfault) : list xop :=
+  rename_ops ro rf ++ (if e0 || existsb rf ro then [] else delete_ops b dl df tf).
+Definition finish_err_o (b : build) (po : list nat) (pf : nat -> bool) (ro dl : list name) (rf df : name -> bool) (tf : tfault) : bool :=
+  if existsb pf po || existsb rf ro then true else delete_err_fold false b dl df tf false.
+(** the code before that repair: nothing is removed before the rename loop *)
+Definition finish_ops_o_before_fix (b : build) (ro dl : list name) (rf df : name -> bool) (tf : tfault) : list xop :=
+  finish_ops b ro dl rf df tf.
 
 (** ---- phase W, sequential instance *)
 Definition write_shard (s : slot) : list xop :=
@@ -134,13 +172,27 @@ Definition build_wf (b : build) : Prop :=
 (** ---- correspondence runner.
     case = (build, executed operations as logged by the fsinstrument shim (+ the write of every temp file it cannot
     see), killed?, Finish returned an error?, the loader's view as (slot code, shard code, sidecar code) rows) *)
-Definition c12case := (build * list xop * bool * bool * list (N * N * N))%type.
+Definition c12case := (build * list nat * list xop * bool * bool * list (N * N * N))%type.
 
 Fixpoint span_tmp (l : list xop) : list xop * list xop :=
   match l with
   | [] => ([], [])
   | o :: r => if tmp_only o then let '(a, c) := span_tmp r in (o :: a, c) else ([], l)
   end.
+(** the leading removals of sidecars at new shards' names where no shard exists *)
+Fixpoint span_orph (b : build) (l : list xop) : list xop * list xop :=
+  match l with
+  | (ORemove (Meta (SReg n)), r) :: rest =>
+      if is_new_slot b n then let '(a, c) := span_orph b rest in ((ORemove (Meta (SReg n)), r) :: a, c) else ([], l)
+  | _ => ([], l)
+  end.
+Definition obs_po (p : list xop) : list nat :=
+  flat_map (fun o => match fst o with ORemove (Meta (SReg n)) => [n] | _ => [] end) p.
+Definition obs_pf (p : list xop) (n : nat) : bool :=
+  existsb (fun o => match o with (ORemove (Meta (SReg m)), false) => Nat.eqb m n | _ => false end) p.
+Fixpoint nodupn (l : list nat) : bool := match l with [] => true | x :: r => negb (memn x r) && nodupn r end.
+Definition subsetn (l m : list nat) : bool := forallb (fun x => memn x m) l.
+Definition permn (l m : list nat) : bool := nodupn l && nodupn m && subsetn l m && subsetn m l.
 Definition is_remove (o : xop) : bool := match fst o with ORemove _ => true | _ => false end.
 
 Definition obs_ro (rd : list xop) : list name :=
@@ -170,10 +222,14 @@ Definition rows_eqb (a b : list (N * N * N)) : bool :=
   list_eqb (fun x y => match x, y with (a1, a2, a3), (b1, b2, b3) => N.eqb a1 b1 && N.eqb a2 b2 && N.eqb a3 b3 end) a b.
 
 Definition c12_ok (c : c12case) : bool :=
-  let '(b, obs, killed, err, vw) := c in
-  let '(w, rd) := span_tmp obs in
+  let '(b, orph, obs, killed, err, vw) := c in
+  let '(w, rd0) := span_tmp obs in
+  let '(p, rd) := span_orph b rd0 in
+  let po := obs_po p in let pf := obs_pf p in
+  let exp := filter (is_new_slot b) orph in
+  let e0 := existsb pf po in
   let w_ok := forallb (fun o => snd o || is_remove o) w in
-  let view_ok := rows_eqb (view_codes (view_bound b) (apply_ops obs (fs0 b))) vw in
+  let view_ok := rows_eqb (view_codes (view_bound b) (apply_ops obs (fs0o b orph))) vw in
   let rf := obs_rf rd in let df := obs_df rd in let tf := obs_tf rd in
   let ro := obs_ro rd in let dl := obs_do rd in
   let ready := forallb (fun a => existsb (xop_eqb (OCreateTmp (tmp_of a), true)) w &&
@@ -181,23 +237,26 @@ Definition c12_ok (c : c12case) : bool :=
   view_ok &&
   if negb w_ok then
     (* an operation of phase W failed: nothing is installed; Finish reports the error *)
-    match rd with [] => killed || err | _ => false end
+    match rd0 with [] => killed || err | _ => false end
   else if killed then
     let ro' := complete_order ro (artifacts b) in
     let td := todel_after b ro' rf in
     (* the compound shard's sidecar is in toDelete but its iteration performs no operation *)
     let dl' := complete_order dl td in
+    nodupn po && subsetn po exp && list_eqb xop_eqb p (orphan_ops po pf) &&
+    (match rd with [] => true | _ => permn po exp end) &&
     nodupb ro && subsetb ro (artifacts b) &&
     nodupb dl && subsetb dl td &&
     (match dl with [] => true | _ => Nat.eqb (length ro) (length (artifacts b)) end) &&
-    (match rd with [] => true | _ => ready end) &&
-    list_eqb xop_eqb rd (firstn (length rd) (finish_ops b ro' dl' rf df tf))
+    (match rd0 with [] => true | _ => ready end) &&
+    list_eqb xop_eqb rd (firstn (length rd) (finish_tail b e0 ro' dl' rf df tf))
   else
     let td := todel_after b ro rf in
     let dl' := complete_order dl td in
-    ready && perm_eqb ro (artifacts b) && perm_eqb dl' td &&
-    list_eqb xop_eqb rd (finish_ops b ro dl' rf df tf) &&
-    Bool.eqb err (finish_err b ro dl' rf df tf).
+    ready && permn po exp && list_eqb xop_eqb p (orphan_ops po pf) &&
+    perm_eqb ro (artifacts b) && perm_eqb dl' td &&
+    list_eqb xop_eqb rd (finish_tail b e0 ro dl' rf df tf) &&
+    Bool.eqb err (finish_err_o b po pf ro dl' rf df tf).
 
 Definition c12_mismatches (cs : list c12case) : list N := bad_indexes c12_ok cs.
 
@@ -207,15 +266,23 @@ Definition c12_mismatches (cs : list c12case) : list N := bad_indexes c12_ok cs.
 Require Import Coq.Strings.String.
 Open Scope string_scope.
 Definition expected_sites : list (string * string * string) := [
+  ("Finish", "return", "if");                      (* finishCalled *)
   (* Finish: an error of phase W removes the temps and returns *)
   ("Finish", "os.Remove", "iferr/range");
+  ("Finish", "return", "iferr");
   (* delta: one sidecar temp per old shard *)
   ("Finish", "JsonMarshalRepoMetaTemp", "if/range");
+  ("Finish", "return", "if");                      (* nothing to install *)
+  (* a left-over sidecar at a new shard's name where no shard exists is removed first ([orphan_ops]) *)
+  ("Finish", "os.Remove", "range/if");
+  ("Finish", "buildError=", "range/if/iferr");
   (* non-delta: IndexFilePaths error (not modelled: Stat never fails) *)
   ("Finish", "buildError=", "if/range/iferr");
-  (* phase R, then phase D — this order is what [finish_ops] = rename_ops ++ delete_ops encodes *)
+  (* phase R, then (unless a rename failed: [finish_ops_gen true]) phase D — this order is what
+     [finish_ops] = rename_ops ++ (if a rename failed then [] else delete_ops) encodes *)
   ("Finish", "os.Rename", "range");
   ("Finish", "buildError=", "range/iferr");
+  ("Finish", "return", "iferr");                   (* a rename failed: the toDelete loop is skipped *)
   ("Finish", "SetTombstone", "range/if");
   ("Finish", "buildError=", "range/if/iferr");     (* guarded: [delete_err_fold false] *)
   ("Finish", "os.Remove", "range");
